@@ -152,6 +152,8 @@ def explore_subst_small(P, u, only, loop_limit=3, max_paths=20000):
             raise AnalysisBroken('anchor function %s vanished from %s' % (f, U))
     known = literals_compared(u.fn('subst')) + [PARAM, OTHER]
     cell = [c for c in known if c in only]
+    from .lib_c09x import require_quiet_subst
+    require_quiet_subst(P, u)
     eof = u.enums.get('TK_EOF')
     if eof is None:
         raise AnalysisBroken('TK_EOF vanished')
